@@ -1,4 +1,5 @@
 from ..runner import PropCfg, SuiteCfg
+from . import c03
 
 
 def _nontrivial(ops, outs):
@@ -14,7 +15,11 @@ def _sig(ops, io, mo, k):
 
 CFG = PropCfg(
     "C14", "HopModel.Props.C14",
-    [SuiteCfg("C14", has_spec=True, nontrivial=_nontrivial, signature=_sig)],
+    [SuiteCfg("C14", has_spec=True, nontrivial=_nontrivial, signature=_sig),
+     # the filter inside the receive path (Check before authentication, Mark only after it): the
+     # session suite of C03 run by this property's harness binary
+     SuiteCfg("C14sess", suite_arg="C03", nontrivial=c03._nontrivial, signature=c03._sig,
+              classify=lambda op, out: c03._verb(op))],
     rule="a case is one counter history (new; acc/mark ...; probe lo n) run on the real SlidingWindow and on "
          "the Lean model; after steps the whole neighbourhood [wt-460, wt+70) is probed. Histories are built "
          "around the proof's case split (in-block, block edges, 64k+{0,1,63} jumps, jumps past the ring, "
